@@ -144,6 +144,9 @@ func (e *esdtNFTMultiTransfer) ProcessBuiltinFunction(
 	if numOfTransfers == 0 {
 		return nil, fmt.Errorf("%w, 0 tokens to transfer", ErrInvalidArguments)
 	}
+	if numOfTransfers > uint64(len(vmInput.Arguments)) {
+		return nil, fmt.Errorf("%w, invalid number of arguments", ErrInvalidArguments)
+	}
 	minNumOfArguments := numOfTransfers*argumentsPerTransfer + 1
 	if uint64(len(vmInput.Arguments)) < minNumOfArguments {
 		return nil, fmt.Errorf("%w, invalid number of arguments", ErrInvalidArguments)
@@ -226,6 +229,9 @@ func (e *esdtNFTMultiTransfer) processESDTNFTMultiTransferOnSenderShard(
 	numOfTransfers := big.NewInt(0).SetBytes(vmInput.Arguments[1]).Uint64()
 	if numOfTransfers == 0 {
 		return nil, fmt.Errorf("%w, 0 tokens to transfer", ErrInvalidArguments)
+	}
+	if numOfTransfers > uint64(len(vmInput.Arguments)) {
+		return nil, fmt.Errorf("%w, invalid number of arguments", ErrInvalidArguments)
 	}
 	minNumOfArguments := numOfTransfers*argumentsPerTransfer + 2
 	if uint64(len(vmInput.Arguments)) < minNumOfArguments {
